@@ -138,7 +138,7 @@ def expand_template(scratch, tmpl_path):
 
 
 def run_verus(path, timeout_s=600, extra=()):
-    cmd = [VERUS, path, "--triggers-mode", "silent", "--output-json", "--time", "--num-threads", "8"] + list(extra)
+    cmd = [VERUS, path, "--triggers-mode", "silent", "--output-json", "--time", "--num-threads", "8", "--edition", "2024"] + list(extra)
     rc, out, secs = run(cmd, cwd=os.path.dirname(path), timeout=timeout_s)
     res = dict(cmd=" ".join(cmd), rc=rc, secs=secs, verified=0, errors=0, raw=out, failures=[], smt_s=None)
     if rc is None:
